@@ -184,9 +184,12 @@ func checkFieldAssignment(
 		return nil
 	}
 
+	// Type aliases (type A = T) denote the same type: look through them
+	receiverType = types.Unalias(receiverType)
 	if ptr, ok := receiverType.(*types.Pointer); ok {
 		receiverType = ptr.Elem()
 	}
+	receiverType = types.Unalias(receiverType)
 
 	named, ok := receiverType.(*types.Named)
 	if !ok {
@@ -239,9 +242,12 @@ func checkIndexAssignment(
 		return nil
 	}
 
+	// Type aliases (type A = T) denote the same type: look through them
+	receiverType = types.Unalias(receiverType)
 	if ptr, ok := receiverType.(*types.Pointer); ok {
 		receiverType = ptr.Elem()
 	}
+	receiverType = types.Unalias(receiverType)
 
 	named, ok := receiverType.(*types.Named)
 	if !ok {
@@ -316,9 +322,12 @@ func checkFieldIncDec(
 		return nil
 	}
 
+	// Type aliases (type A = T) denote the same type: look through them
+	receiverType = types.Unalias(receiverType)
 	if ptr, ok := receiverType.(*types.Pointer); ok {
 		receiverType = ptr.Elem()
 	}
+	receiverType = types.Unalias(receiverType)
 
 	named, ok := receiverType.(*types.Named)
 	if !ok {
@@ -438,9 +447,12 @@ func checkCompoundLHS(
 		return nil
 	}
 
+	// Type aliases (type A = T) denote the same type: look through them
+	receiverType = types.Unalias(receiverType)
 	if ptr, ok := receiverType.(*types.Pointer); ok {
 		receiverType = ptr.Elem()
 	}
+	receiverType = types.Unalias(receiverType)
 
 	named, ok := receiverType.(*types.Named)
 	if !ok {
